@@ -100,6 +100,8 @@ def check(prop, cfg, tier, seed, replay=None):
     for s in cfg.get("streams", []):
         if s.get("kind", "bin") == "bin" and (s["mod"], False) not in binaries:
             continue
+        if s.get("seed_add") and (replay or s["n"].get(tier, 0) == 0):
+            continue  # additional seed chunk of a stream: not part of this tier / not needed for a replay
         runs = []
         if replay:
             runs.append(("replay", replay, 0))
@@ -109,7 +111,7 @@ def check(prop, cfg, tier, seed, replay=None):
                 runs.append(("corpus", corp, 0))
             runs.append(("gen", None, s["n"][tier]))
         for tag, ops_file, n in runs:
-            r = _run_one_stream(prop, s, binaries, seed, n, tag, ops_file=ops_file,
+            r = _run_one_stream(prop, s, binaries, seed + s.get("seed_add", 0), n, tag, ops_file=ops_file,
                                 race=(tier == "thorough" and cfg.get("race", False)))
             r["tag"] = tag
             streams_out.append(r)
@@ -237,6 +239,8 @@ def search(prop, cfg, binaries, seed, known, budget_s):
             if s.get("kind", "bin") == "bin" and (s["mod"], False) not in binaries:
                 continue
             n = s["n"]["quick"] * 2
+            if n == 0:
+                continue
             try:
                 r = _run_one_stream(prop, s, binaries, seed * 1000003 + k, n, "search%d" % k)
             except Exception:  # noqa
